@@ -86,6 +86,10 @@ FOREIGN = [
     "% define n v", "%\tdefine n v", "% include f", "% import p",
     "%  define n v", "%\u3000include f", "%\u00a0import p", "% define",
     "%% define n v", "%define\u00a0n v",
+    # ... and its name in full: pieces of the names are no directives
+    "%inc f", "%def n v", "%imp p", "%e x", "%port p", "%fine n v",
+    "%clude f", "%includes f", "%define_ n v", "%d n v", "%i p", "%de",
+    "%import_ p", "%in f", "%include.f",
 ]
 FOLD_PAIRS = [("straße", "strasse"), ("ς", "σ"), ("ﬁle", "file"),
               ("ſ", "s"), ("maſt", "mast"), ("İx", "i̇x"), ("ǅ", "ǆ"),
